@@ -229,6 +229,26 @@ pub fn check_case(c: &Case) -> CaseResult {
             w.check(d.as_ref(), &l.root, None, None)?;
             let mut flat = Vec::new();
             flat_spans(d.as_ref(), &mut flat);
+            // owned copies carry the same spans: the whole datum cloned, and
+            // every direct sub-datum turned into a datum of its own
+            {
+                let copy = d.clone();
+                let mut cflat = Vec::new();
+                flat_spans(copy.as_ref(), &mut cflat);
+                if cflat != flat || copy != *d {
+                    return Err((format!("src={} which=clone-differs", src), "a cloned datum reports other spans than the original (or is not equal to it)".into()));
+                }
+                for child in ref_children(&d.as_ref()) {
+                    let mut want = Vec::new();
+                    flat_spans(child, &mut want);
+                    let owned = lexpr::Datum::from(child);
+                    let mut got = Vec::new();
+                    flat_spans(owned.as_ref(), &mut got);
+                    if got != want {
+                        return Err((format!("src={} which=owned-sub-datum-differs", src), format!("Datum::from(sub-datum) reports spans {:?}, the sub-datum itself {:?}", got, want)));
+                    }
+                }
+            }
             match &reference {
                 None => reference = Some(flat),
                 Some(rf) if *rf != flat => {
